@@ -92,19 +92,21 @@ type dirState struct {
 }
 
 type mitm struct {
-	name    string
-	framing int
-	ed      edit
-	d       [2]dirState
-	send    [2]*simnet.Conn // endpoint whose Write feeds direction i (for injection)
-	other   *mitm           // second session (swap / reroute)
-	replay  [2][][]byte     // frames recorded from an earlier session
-	rec     [2][][]byte     // handshake frames seen in this session (originals)
-	swapIn  []byte          // the other session's frame, waiting for ours to be sent
-	quart   int             // flip: quarter of the frame that was hit (0..3), for coverage probes
-	fired   bool
-	note    string // what exactly was done (lengths may depend on crypto randomness: trace only, never signature)
-	trouble string
+	name     string
+	framing  int
+	ed       edit
+	d        [2]dirState
+	send     [2]*simnet.Conn // endpoint whose Write feeds direction i (for injection)
+	other    *mitm           // second session (swap / reroute)
+	replay   [2][][]byte     // frames recorded from an earlier session
+	rec      [2][][]byte     // handshake frames seen in this session (originals)
+	swapIn   []byte          // the other session's frame, waiting for ours to be sent
+	tailWant []byte          // trunc-raw / cut: the bytes that were removed from the end of the frame ...
+	tailGot  []byte          // ... and the bytes that followed in the stream instead
+	quart    int             // flip: quarter of the frame that was hit (0..3), for coverage probes
+	fired    bool
+	note     string // what exactly was done (lengths may depend on crypto randomness: trace only, never signature)
+	trouble  string
 }
 
 func newMitm(name string, framing int, ed edit, d, l *simnet.Conn) *mitm {
@@ -228,6 +230,9 @@ func (m *mitm) hook(toDialer bool, chunk []byte) []byte {
 
 func (m *mitm) emit(dir int, b []byte) []byte {
 	ds := &m.d[dir]
+	if m.tailWant != nil && dir == m.ed.dir && len(m.tailGot) < len(m.tailWant) {
+		m.tailGot = append(m.tailGot, b...)
+	}
 	if ds.holding {
 		ds.queue = append(ds.queue, b...)
 		return nil
@@ -342,7 +347,19 @@ func (m *mitm) onFrame(dir int, f []byte) []byte {
 	}
 	m.fired = true
 	m.note = note
-	return m.emit(dir, g)
+	out := m.emit(dir, g)
+	if (e.kind == edTruncRaw || e.kind == edCut) && len(g) < len(f) {
+		m.tailWant = f[len(g):]
+	}
+	return out
+}
+
+// restored: after a truncation that left the length field alone, the receiver completes the frame
+// with whatever bytes follow in the stream. If those happen to equal the bytes that were cut (one byte:
+// 1 in 256 — ciphertext is random), the receiver has consumed exactly the frame its partner sent: it
+// received nothing altered (what lost its head is the FOLLOWING frame).
+func (m *mitm) restored() bool {
+	return m.tailWant != nil && len(m.tailGot) >= len(m.tailWant) && string(m.tailGot[:len(m.tailWant)]) == string(m.tailWant)
 }
 
 var junk = []byte{0xa5, 0x5a, 0xc3, 0x3c, 0x0f, 0xf0, 0x99, 0x66, 0xa5, 0x5a, 0xc3, 0x3c, 0x0f, 0xf0, 0x99, 0x66}
@@ -388,6 +405,23 @@ func (m *mitm) amount(bodyLen, idx int) int {
 	return n
 }
 
+// rawCut adjusts the number of bytes a truncation WITHOUT length correction removes so that the first
+// removed byte cannot be the first byte of whatever frame follows in the stream (0x00: length prefix of
+// a short Noise frame; 0x14..0x17: TLS record types). Otherwise the receiver, which completes the frame
+// with the bytes that follow, would in 1 of 256 runs re-assemble exactly the original frame and
+// legitimately proceed (see restored) — an outcome decided by random ciphertext, not by the tape.
+func rawCut(f []byte, bodyLen, n int) int {
+	bad := func(b byte) bool { return b == 0 || (b >= 0x14 && b <= 0x17) }
+	if bad(f[len(f)-n]) {
+		if n < bodyLen {
+			n++
+		} else if n > 1 {
+			n--
+		}
+	}
+	return n
+}
+
 // apply performs the single-frame edits. It returns the bytes to forward and a description; an
 // empty description means the edit was not applicable (nothing fired).
 func (m *mitm) apply(f []byte, idx int) ([]byte, string) {
@@ -408,13 +442,13 @@ func (m *mitm) apply(f []byte, idx int) ([]byte, string) {
 		if len(body) == 0 {
 			return nil, ""
 		}
-		n := m.amount(len(body), idx)
+		n := rawCut(f, len(body), m.amount(len(body), idx))
 		return append([]byte(nil), f[:len(f)-n]...), fmt.Sprintf("cut %d of %d body bytes, length field untouched", n, len(body))
 	case edCut:
 		if len(body) == 0 {
 			return nil, ""
 		}
-		n := m.amount(len(body), idx)
+		n := rawCut(f, len(body), m.amount(len(body), idx))
 		// the sender's endpoint is closed by a task of its own (the hook runs under the connection's lock):
 		// the receiver sees the head of the frame, then EOF
 		c := m.send[e.dir]
